@@ -784,7 +784,8 @@ pub fn lookalike_twins() -> Vec<(Value, Value)> {
     let mut v = spelling_twins();
     for (a, b) in [("0", r#""0""#), ("false", "0"), (r#""""#, "null"), (r#""a""#, r#""A""#), ("9007199254740992", "9007199254740993"), ("18446744073709551614", "18446744073709551615"),
                    ("-9223372036854775808", "-9223372036854775807"), ("1.5", r#""1.5""#), ("false", r#""false""#), ("[1,2]", r#""1,2""#), (r#"{"a":1}"#, r#"{"a":1.0}"#), ("0.1", "0.10000000000000002"),
-                   ("[0]", "[false]"), (r#"{"a":1,"b":2}"#, r#"{"a":1,"b":"2"}"#)] {
+                   ("[0]", "[false]"), (r#"{"a":1,"b":2}"#, r#"{"a":1,"b":"2"}"#), (r#"{"b":1}"#, r#"{"a":null}"#), (r#"{"a":null}"#, "{}"), (r#"{"a":null,"k":0}"#, r#"{"b":1,"k":0}"#),
+                   (r#"{"a":1,"b":2}"#, r#"{"b":2,"a":1,"c":null}"#), ("[1,2]", "[1,2,null]"), ("[[1,2]]", "[1,2]"), (r#"["a,b"]"#, r#"["a","b"]"#)] {
         v.push((parse(a), parse(b)));
     }
     let rev: Vec<(Value, Value)> = v.iter().map(|(a, b)| (b.clone(), a.clone())).collect();
@@ -809,4 +810,32 @@ pub fn long_number_texts() -> Vec<Value> {
         out.push(parse(t));
     }
     dedup(out)
+}
+
+/// Number texts with 16..19 significant digits in plain and exponent notation (a fixed pseudo-random corpus of
+/// 600: a linear congruential sequence, no seed from outside): the region in which a fast float parser and an
+/// exact one differ by one unit in the last place for a sizeable share of the texts, so that two builds which
+/// parse with different algorithms (a dependency feature switched on for one binary only) disagree on them.
+pub fn long_float_texts() -> Vec<String> {
+    let mut out = Vec::new();
+    let mut x: u64 = 0x9e3779b97f4a7c15;
+    for i in 0..600u32 {
+        x = x.wrapping_mul(6364136223846793005).wrapping_add(1442695040888963407);
+        let digits = format!("{:019}", x % 10_000_000_000_000_000_000u64);
+        let nd = 16 + (i % 4) as usize;
+        let d = &digits[..nd];
+        let text = match i % 6 {
+            0 => format!("{}.{}", &d[..3], &d[3..]),
+            1 => format!("{}.{}e{}", &d[..1], &d[1..], (x >> 40) % 40),
+            2 => format!("0.{}", d),
+            3 => format!("{}.{}e-{}", &d[..1], &d[1..], (x >> 40) % 40),
+            4 => format!("{}.{}", &d[..nd - 3], &d[nd - 3..]),
+            _ => format!("-{}.{}", &d[..2], &d[2..]),
+        };
+        out.push(text);
+    }
+    for t in ["985.6906946328695", "212.91890726713459", "479.60756426982596", "92.42132512813595", "3.0620278683873806e13", "8.68344978690736625851781286e-7", "0.8421859468585017754865971663804983e29", "0.9999999999999999"] {
+        out.push(t.to_string());
+    }
+    out
 }
